@@ -43,6 +43,7 @@ type Archive struct {
 	CutTar  int               `json:"cut_tar,omitempty"` // truncate the tar stream at this many 512-blocks before compressing (0 = no)
 	Reader  simkit.ReaderPlan `json:"reader"`
 	Dst     string            `json:"dst,omitempty"` // unpack this archive into another destination (default: the scenario's)
+	Wipe    bool              `json:"wipe,omitempty"` // the caller empties and re-creates the destination before this Unpack
 }
 
 type Scenario struct {
@@ -53,6 +54,7 @@ type Scenario struct {
 	Umask    int       `json:"umask"`
 	Dst      string    `json:"dst"`
 	Allow    []string  `json:"allow,omitempty"`
+	FailFirst bool     `json:"fail_first,omitempty"` // archive 0 is an earlier call that is refused half-way; the destination is emptied afterwards
 	SharedPacker bool  `json:"shared_packer,omitempty"` // one *Packer serves all Unpack calls of the scenario
 	Archives []Archive `json:"archives"`
 }
